@@ -69,8 +69,10 @@ TRUSTED_EXTRA = [
 ]
 RULE = ("case = bundle policy of each peer + script over {addTransceiver(kind,direction,track?), addTrack(kind), createDataChannel, "
         "setCodecPreferences(indices into get_capabilities), direction setter, complete exchange offered by peer p}; first exchange after "
-        "0-3 transceivers per side, up to two follow-up exchanges that add media / change direction / swap the offerer; distinct = "
-        "distinct script; every case runs a real RTCPeerConnection pair over loopback")
+        "0-3 transceivers per side, up to two follow-up exchanges that add media / change direction / swap the offerer; plus LARGE "
+        "descriptions: 10-32 (and 101/102) media sections offered at once or accumulated 1-4 per round over many follow-up exchanges "
+        "offered by alternating sides, data channel in the middle; distinct = distinct script; every case runs a real "
+        "RTCPeerConnection pair over loopback")
 
 POLICIES = ["balanced", "max-compat", "max-bundle"]
 KINDS = ["audio", "video"]
@@ -175,6 +177,17 @@ def state_str(pc):
                      "ready=%d" % (1 if ready else 0), "T[" + _join_or("|", ts) + "]", s])
 
 
+def _sections(out):
+    """number of media sections of the last offer in a canonical output string"""
+    n = 0
+    for tok in out.split(" # "):
+        f = tok.split(" ")
+        if tok.startswith("N") and len(f) >= 3 and f[1] != "ERR":
+            body = f[1][f[1].index("[") + 1:]
+            n = 0 if body.startswith("-]") else body.count("|") + 1
+    return n
+
+
 def _exc_tag(exc):
     n = type(exc).__name__
     return {"ValueError": "ValueError"}.get(n, n)
@@ -193,6 +206,14 @@ def _is_rtx(c):
 def judge_descriptions(offer, answer):
     """clauses about the answer vs the offer; -> None or what fails"""
     om, am = offer.media, answer.media
+    for what, d in (("offer", offer), ("answer", answer)):
+        mids = [m.rtp.muxId for m in d.media]
+        dup = sorted({x for x in mids if mids.count(x) > 1})
+        if dup:
+            return "mids: the %s uses mid %s for more than one of its %d media sections (mids %s)" % (
+                what, ",".join(map(str, dup)), len(mids), ",".join(map(str, mids)))
+        if any(x in (None, "") for x in mids):
+            return "mids: a media section of the %s has no mid" % what
     if len(om) != len(am):
         return "mirror: answer has %d media sections, offer %d" % (len(am), len(om))
     for i, (o, a) in enumerate(zip(om, am)):
@@ -241,10 +262,28 @@ def judge_descriptions(offer, answer):
     return None
 
 
+def judge_history(previous, offer):
+    """follow-up exchanges only ADD media: the sections negotiated so far keep position, kind and mid (whoever offers),
+    and a new section never takes a mid that is in use"""
+    now = [(m.kind, m.rtp.muxId) for m in offer.media]
+    if len(now) < len(previous):
+        return "history: the follow-up offer has %d media sections, %d were negotiated before" % (len(now), len(previous))
+    for i, (was, so) in enumerate(zip(previous, now)):
+        if was != so:
+            return "history: section %d was negotiated as %s/%s and is offered as %s/%s in the follow-up" % (i, was[0], was[1], so[0], so[1])
+    return None
+
+
 def judge_objects(o_pc, a_pc, answer):
     """clauses about the two connections right after the exchange"""
     if o_pc.signalingState != "stable" or a_pc.signalingState != "stable":
         return "stable: signalingState is %s / %s after the exchange" % (o_pc.signalingState, a_pc.signalingState)
+    for name, pc in (("offerer", o_pc), ("answerer", a_pc)):
+        own = [t.mid for t in pc.getTransceivers() if t.mid is not None]
+        if pc.sctp is not None and pc.sctp.mid is not None:
+            own.append(pc.sctp.mid)
+        if len(set(own)) != len(own):
+            return "mids: transceivers / SCTP transport of the %s share a mid: %s" % (name, ",".join(own))
     for m in answer.media:
         mid = m.rtp.muxId
         if m.kind in ("audio", "video"):
@@ -329,6 +368,7 @@ class _Runner:
         self.channels = []      # (peer, RTCDataChannel)
         self.echoes = {}
         self.failures = []      # oracle verdicts collected while running
+        self.history = []       # (kind, mid) of the sections of the last completed exchange
         self.labels = []
 
     def setup_op(self, op):
@@ -393,6 +433,14 @@ class _Runner:
         except Exception as exc:  # noqa: BLE001
             tag = _exc_tag(exc)
             note = " [disjoint codec preferences]" if _disjoint_prefs(o, a) else ""
+            try:
+                # say so when the offer that was being answered is already malformed (one mid on several sections)
+                mids = [m.rtp.muxId for m in _parse(o.localDescription.sdp, "offer").media] if step not in ("createOffer", "setLocal(offer)") else []
+                dup = sorted({x for x in mids if mids.count(x) > 1})
+                if dup:
+                    note += " [the offer uses mid %s for more than one of its %d media sections]" % (",".join(map(str, dup)), len(mids))
+            except Exception:  # noqa: BLE001
+                pass
             self.failures.append(("exchange", "exchange: %s raised %s: %s%s" % (step, type(exc).__name__, str(exc)[:120], note), tag))
             return ["N%d ERR %s %s" % (p, step, tag), "STOP N:%d %s" % (p, tag)], True
         # observe immediately (no await between the last call and the observation)
@@ -406,7 +454,9 @@ class _Runner:
             tok += " !answerer.remoteDescription=" + desc_str(d_ar)
         if desc_str(d_or) != s_answer:
             tok += " !offerer.remoteDescription=" + desc_str(d_or)
-        why = judge_descriptions(d_ol, d_al) or judge_descriptions(d_ar, d_or) or judge_objects(o, a, d_al)
+        why = (judge_descriptions(d_ol, d_al) or judge_descriptions(d_ar, d_or) or judge_history(self.history, d_ol)
+               or judge_objects(o, a, d_al))
+        self.history = [(m.kind, m.rtp.muxId) for m in d_ol.media]
         if why:
             self.failures.append(("static", why, None))
         self.states = [state_str(self.pcs[0]), state_str(self.pcs[1])]
@@ -624,6 +674,110 @@ def gen_case(rng):
     return case
 
 
+BIG_TOTALS = [10, 11, 12, 13, 20, 30]
+
+
+def _big_item(rng, p, kinds=KINDS):
+    """one op of peer p that is guaranteed to create a NEW transceiver (addTransceiver; addTrack may re-use one)"""
+    return "T:%d:%s:%s:%d" % (p, rng.choice(kinds), rng.choice(DIRS), rng.randint(0, 1))
+
+
+def gen_big_once(rng, total, pa=None, pb=None, dc=None):
+    """`total` media sections offered AT ONCE: the offerer owns total (or total-1 + data channel somewhere in the middle)
+    items, the answerer a few of its own beforehand (matched by kind, so they add no section unless of an unoffered kind)"""
+    first = rng.randint(0, 1) if rng.random() < 0.3 else 0
+    dc = (rng.random() < 0.7) if dc is None else dc
+    n = total - 1 if dc else total
+    dcpos = rng.randint(1, max(1, n - 1))
+    style = rng.random()
+    kinds = KINDS if style < 0.6 else [rng.choice(KINDS)]       # mixed, or a conference of one kind
+    ops = []
+    for i in range(n):
+        if dc and i == dcpos:
+            ops.append("D:%d" % first)
+        if rng.random() < 0.15:
+            ops.append("K:%d:%s" % (first, rng.choice(kinds)))
+        else:
+            ops.append(_big_item(rng, first, kinds))
+    # addTrack re-uses a track-less transceiver of its kind: top up so that the offer really has `total` sections
+    while len(_kinds_after(ops, first)) < n:
+        ops.append(_big_item(rng, first, kinds))
+    for _ in range(rng.choice([0, 0, 1, 2, 3])):
+        ops.append(_big_item(rng, 1 - first, kinds))
+    if rng.random() < 0.2:
+        ops.append("D:%d" % (1 - first))
+    ops.append("N:%d" % first)
+    if rng.random() < 0.5:
+        # one more section after the big one, possibly from the other side
+        who = rng.randint(0, 1)
+        ops.append(_big_item(rng, who))
+        ops.append("N:%d" % who)
+    return {"pa": pa or rng.choice(POLICIES), "pb": pb or rng.choice(POLICIES), "ops": ops}
+
+
+def gen_big_rounds(rng, total, pa=None, pb=None, step=None, alternate=None):
+    """media sections ACCUMULATED over many follow-up exchanges: every round the offering side adds 1-4 new
+    transceivers (the data channel in some middle round) and offers; the two sides take turns (with occasional repeats)
+    until the description has at least `total` sections"""
+    ops = []
+    who = rng.randint(0, 1)
+    alternate = (rng.random() < 0.8) if alternate is None else alternate
+    have = 0
+    dc_at = rng.randint(2, max(2, total - 2)) if rng.random() < 0.8 else None
+    dc_done = False
+    rounds = 0
+    while have < total:
+        k = step or rng.randint(1, 4)
+        for _ in range(min(k, total - have)):
+            if dc_at is not None and not dc_done and have >= dc_at:
+                ops.append("D:%d" % who)
+                dc_done = True
+            else:
+                ops.append(_big_item(rng, who))
+            have += 1
+        if rng.random() < 0.15:
+            # the other side prepares a transceiver too: it is matched by (or appended after) this round's offer
+            ops.append(_big_item(rng, 1 - who))
+        if rng.random() < 0.1:
+            q = rng.randint(0, 1)
+            kq = _kinds_after(ops, q)
+            if kq:
+                ops.append("R:%d:%d:%s" % (q, rng.randrange(len(kq)), rng.choice(DIRS)))
+        ops.append("N:%d" % who)
+        rounds += 1
+        if alternate or rng.random() < 0.3:
+            who = 1 - who
+    case = {"pa": pa or rng.choice(POLICIES), "pb": pb or rng.choice(POLICIES), "ops": ops}
+    # follow-up rounds issued back to back (only the last exchange is followed by the connected + echo observation):
+    # always for long histories, where waiting after every round would dominate the run time
+    if rounds > 6 or rng.random() < 0.5:
+        case["nowait"] = True
+        if rng.random() < 0.3:
+            case["late"] = True
+    return case
+
+
+def gen_big(rng, total=None):
+    total = total or rng.choice(BIG_TOTALS + [rng.randint(10, 32)])
+    return gen_big_once(rng, total) if rng.random() < 0.5 else gen_big_rounds(rng, total)
+
+
+def systematic_big(tier):
+    """a fixed handful of LARGE configurations (every run, every seed): 12 / 13 / 20 / 30 sections at once and accumulated
+    three at a time by alternating offerers, data channel in the middle"""
+    import random
+    rng = random.Random(3)
+    out = []
+    totals = [12, 13, 30] if tier == "quick" else BIG_TOTALS + [101, 102]
+    for i, total in enumerate(totals):
+        pol = POLICIES[i % 3], POLICIES[(i // 3 + i) % 3]
+        out.append(gen_big_once(rng, total, pol[0], pol[1], dc=True))
+        out.append(gen_big_rounds(rng, total, pol[1], pol[0], step=3 if total < 100 else 7, alternate=True))
+    if tier == "quick":
+        out.append(gen_big_once(rng, 102, "balanced", "max-bundle", dc=True))       # mids with three digits ("99" -> "100", "101")
+    return out
+
+
 def systematic():
     """small exhaustive families: every direction pair, every policy pair, addTrack vs addTransceiver, dc position"""
     out = []
@@ -641,6 +795,9 @@ def systematic():
             out.append({"pa": pa, "pb": pb, "nowait": True, "ops": ["D:0", "N:0", "T:0:video:sendrecv:1", "N:0"]})
             out.append({"pa": pa, "pb": pb, "nowait": True, "ops": ["D:0", "K:0:audio", "N:0", "K:1:video", "N:1"]})
             out.append({"pa": pa, "pb": pb, "nowait": True, "late": True, "ops": ["D:0", "N:0", "N:1"]})
+            # ... and the FIRST data channel added by a follow-up issued while the media-only session is still connecting
+            out.append({"pa": pa, "pb": pb, "nowait": True, "ops": ["T:0:audio:sendrecv:0", "N:0", "D:0", "N:0"]})
+            out.append({"pa": pa, "pb": pb, "nowait": True, "late": True, "ops": ["K:0:video", "N:0", "D:1", "N:1"]})
     return out
 
 
@@ -663,6 +820,15 @@ CORPUS = [
     {"pa": "balanced", "pb": "balanced", "ops": ["T:0:video:sendrecv:0", "C:0:0:0", "T:1:video:sendrecv:0", "C:1:0:2", "N:0"]},
     # follow-up adds media on the answerer and swaps the offering side; direction change
     {"pa": "max-compat", "pb": "balanced", "ops": ["K:0:audio", "D:0", "N:0", "K:1:video", "R:0:0:recvonly", "N:1", "N:0"]},
+    # the first data channel is added by a follow-up exchange issued at once, while the media-only session is still connecting
+    {"pa": "balanced", "pb": "balanced", "nowait": True, "ops": ["T:0:audio:sendrecv:0", "N:0", "D:0", "N:0"]},
+    {"pa": "max-bundle", "pb": "max-compat", "nowait": True, "late": True, "ops": ["K:0:video", "T:0:audio:recvonly:0", "N:0", "D:1", "N:1"]},
+    # LARGE descriptions (round 3): a 12th / 13th media section at once (conference: one sendrecv pair + receive-only audio) ...
+    {"pa": "balanced", "pb": "balanced", "ops": ["K:0:audio", "K:0:video"] + ["T:0:audio:recvonly:0"] * 10 + ["N:0"]},
+    {"pa": "max-bundle", "pb": "max-compat", "ops": ["T:0:video:sendrecv:1"] * 6 + ["D:0"] + ["T:0:audio:sendonly:1"] * 6 + ["N:0"]},
+    # ... and accumulated three at a time over follow-up exchanges offered by alternating sides (14 sections, data channel second)
+    {"pa": "balanced", "pb": "balanced", "nowait": True,
+     "ops": ["K:0:audio", "D:0", "N:0"] + sum([["T:%d:audio:sendrecv:0" % (r % 2)] * 3 + ["N:%d" % (r % 2)] for r in range(1, 5)], [])},
 ]
 
 
@@ -670,7 +836,7 @@ class Exchange(Component):
     name = "exchange"
     theorems = ["exchange_succeeds", "run_ok", "exchange_sections_any", "exchange_roles_opposite", "negotiate_mirrors", "negotiate_stable",
                 "negotiate_roles_definite", "answer_codecs_offered", "directions_complementary", "common_codecs_offered",
-                "negotiated_codecs_offered", "header_extensions_offered", "bundle_keeps_primary", "bundle_moves_all", "allocate_mid_fresh"]
+                "negotiated_codecs_offered", "header_extensions_offered", "bundle_keeps_primary", "bundle_moves_all", "allocate_mid_fresh", "exchange_mids_distinct"]
 
     def __init__(self, tier):
         self.tier = tier
@@ -682,9 +848,19 @@ class Exchange(Component):
 
     def cases(self, rng, tier):
         out = systematic() if tier == "thorough" else systematic()[::3]
+        out += systematic_big(tier)
+        base = len(out)
         n = 120 if tier == "quick" else 6000
-        seen = set()
-        while len(out) < n + (len(systematic()) if tier == "thorough" else len(systematic()[::3])):
+        n_big = 8 if tier == "quick" else 400          # large descriptions: 10 ... 32 sections, at once / accumulated
+        seen = set(case_key(c) for c in out)
+        while len(out) < base + n_big:
+            c = gen_big(rng)
+            k = case_key(c)
+            if k in seen:
+                continue
+            seen.add(k)
+            out.append(c)
+        while len(out) < base + n_big + n:
             c = gen_case(rng)
             k = case_key(c)
             if k in seen:
@@ -757,6 +933,13 @@ class Exchange(Component):
             kind, why, tag = failures[0]
             return "%s:%s" % (kind, tag or why.split(":")[0])
         swap = len(set(op for op in case["ops"] if op.startswith("N:"))) > 1
+        secs = _sections(out)
+        if secs >= 10:
+            # large descriptions: bucket by size (12 = first mid with two digits after "9" and "10" exist) and history length
+            return "ok:big:%s:%s%s%s%s" % ("s10-11" if secs < 12 else "s12-19" if secs < 20 else "s20-99" if secs < 100 else "s100+",
+                                         "once" if n <= 2 else "n3-5" if n <= 5 else "n6+", ":swap" if swap else "",
+                                         ":dc" if any(op.startswith("D:") for op in case["ops"]) else "",
+                                         ":nowait" if case.get("nowait") else "")
         dc = any(op.startswith("D:") for op in case["ops"])
         pref = any(op.startswith("C:") for op in case["ops"])
         return "ok:n%d%s%s%s%s:%s/%s" % (n, (":nowait+late" if case.get("late") else ":nowait") if case.get("nowait") else "", ":swap" if swap else "", ":dc" if dc else "", ":pref" if pref else "",
@@ -779,6 +962,17 @@ class Exchange(Component):
         if len(ns) > 1:
             yield dict(case, ops=ops[:ns[-1]])
             yield dict(case, ops=ops[:ns[0] + 1])
+        # long scripts (large descriptions): contiguous blocks first (halves, quarters, eighths), then single ops
+        size = len(ops) // 2
+        while len(ops) > 14 and size >= 2:
+            for start in range(len(ops) - size, -1, -size):
+                block = ops[start:start + size]
+                cand = ops[:start] + ops[start + size:]
+                if not any(o.startswith("N:") for o in cand):
+                    continue
+                gone = {o.split(":")[1] for o in block if o[0] in "TK"}
+                yield dict(case, ops=[o for o in cand if not (o[0] in "CR" and o.split(":")[1] in gone)])
+            size //= 2
         for i in range(len(ops) - 1, -1, -1):
             cand = ops[:i] + ops[i + 1:]
             if not any(o.startswith("N:") for o in cand):
